@@ -1119,6 +1119,82 @@ static void run_script(jv *s)
   emit(v);
 }
 
+/* ---------- C13 (b): the full product of option records against the verdict table exported by TLC ----------
+ *   vdrv --optsweep <table file> <shard> <nshards> <stride> <offset>
+ * table line: s t h f p parent discard file path verdict(0 ok,1 reject,2 late) efftype
+ * Every record is passed to reproc_start with the first fault point (the first descriptor-creating call) failing with
+ * EMFILE: an accepted record therefore returns -EMFILE without creating anything, a rejected one must return EINVAL
+ * before reaching any creating call. */
+static unsigned char T_verdict[4][9][2][2][2][2][2][2][2], T_eff[4][9][2][2][2][2][2][2][2];
+static int optsweep(const char *tablefile, int shard, int nshards, int stride, int offset)
+{
+  FILE *tf = fopen(tablefile, "r");
+  if (!tf) { perror("table"); return 2; }
+  int s, t, h, f, p, pa, di, fi, pt, v, e, rows = 0;
+  while (fscanf(tf, "%d %d %d %d %d %d %d %d %d %d %d", &s, &t, &h, &f, &p, &pa, &di, &fi, &pt, &v, &e) == 11) {
+    T_verdict[s][t][h][f][p][pa][di][fi][pt] = (unsigned char) v; T_eff[s][t][h][f][p][pa][di][fi][pt] = (unsigned char) e; rows++;
+  }
+  fclose(tf);
+  if (rows != 3 * 9 * 8 * 16) { fprintf(stderr, "optsweep: table has %d rows\n", rows); return 2; }
+  jv *cfg = j_parse("{\"e\":\"cfg\",\"cap\":8,\"limit\":32,\"extra\":[[5,0,\"o5\"],[6,0,\"o6\"]]}", NULL);
+  setup(cfg);
+  K->in_api = 1; reproc_t *proc = reproc_new(); K->in_api = 0;
+  const char *argv_ok[] = { "/bin/c", NULL }, *argv_null0[] = { NULL };
+  long n = 0, judged = 0, mism = 0, idx = 0;
+  static const char *PATHV = "/d/f";
+  for (int a = 0; a < 72; a++) for (int b = 0; b < 72; b++) {
+    if ((a * 72 + b) % nshards != shard) continue;
+    for (int c = 0; c < 72; c++) for (int sh = 0; sh < 16; sh++) for (int in = 0; in < 4; in++) for (int fa = 0; fa < 4; fa++) {
+      idx++;
+      if (stride > 1 && (idx * 2654435761u >> 7) % (unsigned) stride != (unsigned) offset) continue;
+      int R[3] = { a, b, c };
+      reproc_options o; memset(&o, 0, sizeof o);
+      reproc_redirect *rd[3] = { &o.redirect.in, &o.redirect.out, &o.redirect.err };
+      int tv[3], hv[3], fv[3], pv[3];
+      for (int q = 0; q < 3; q++) {
+        tv[q] = R[q] % 9; hv[q] = (R[q] / 9) & 1; fv[q] = (R[q] / 18) & 1; pv[q] = (R[q] / 36) & 1;
+        rd[q]->type = (REPROC_REDIRECT) tv[q]; rd[q]->handle = hv[q] ? 5 : 0; rd[q]->file = fv[q] ? sk_file_for_fd(6) : NULL; rd[q]->path = pv[q] ? PATHV : NULL;
+      }
+      int pa_ = sh & 1, di_ = (sh >> 1) & 1, fi_ = (sh >> 2) & 1, pt_ = (sh >> 3) & 1;
+      o.redirect.parent = pa_; o.redirect.discard = di_; o.redirect.file = fi_ ? sk_file_for_fd(6) : NULL; o.redirect.path = pt_ ? PATHV : NULL;
+      static const uint8_t data[4] = { 1, 2, 3, 4 };
+      int inputv = in == 0 ? -1 : in == 1 ? -2 : in == 2 ? 0 : 2;
+      if (inputv == -2) { o.input.data = NULL; o.input.size = 3; } else if (inputv >= 0) { o.input.data = data; o.input.size = (size_t) inputv; }
+      int forkv = fa & 1, argvmode = fa >> 1;   /* argvmode 0: given, 1: NULL */
+      o.fork = forkv;
+      const char *const *argv = argvmode ? NULL : argv_ok;
+      (void) argv_null0;
+      /* model: compose the per-stream table */
+      int rej = 0, late = 0, eff_in = 0;
+      for (int q = 0; q < 3; q++) {
+        int vd = T_verdict[q + 1][tv[q]][hv[q]][fv[q]][pv[q]][pa_][di_][fi_][pt_];
+        if (vd == 1) rej = 1; else if (vd == 2) late = 1;
+        if (q == 0) eff_in = T_eff[1][tv[0]][hv[0]][fv[0]][pv[0]][pa_][di_][fi_][pt_];
+      }
+      int unspec = pa_ && di_ && !rej;
+      int input_bad = inputv == -2 || (inputv >= 0 && eff_in != REPROC_REDIRECT_PIPE);
+      int fork_bad = (forkv && !argvmode) || (!forkv && argvmode);
+      n++;
+      if (unspec) continue;
+      int expect_einval = rej || late || input_bad || fork_bad;
+      int must_be_upfront = rej || (!late && (input_bad || fork_bad));
+      K->nlog = 0; K->nfault = 1; K->fault[0].side = 0; K->fault[0].index = 1; K->fault[0].err = EMFILE; K->callno[0] = K->callno[1] = 0; K->fault_hits = 0;
+      K->in_api = 1; int r = reproc_start(proc, argv, o); K->in_api = 0;
+      int created = 0; for (int i = 0; i < K->nlog; i++) if (K->log[i].kind == LK_PIPE || K->log[i].kind == LK_OPEN || K->log[i].kind == LK_FORK) created++;
+      judged++;
+      /* (an out-of-range type need not be rejected up front, DESIGN 5.3: the injected EMFILE of an earlier stream may win) */
+      int ok = expect_einval ? ((r == -EINVAL || (!must_be_upfront && r == -EMFILE)) && (!must_be_upfront || (created == 0 && K->fault_hits == 0)))
+                             : (r == -EMFILE && created == 0);
+      if (!ok && mism++ < 40)
+        printf("{\"i\":%ld,\"ok\":0,\"kind\":\"optprod\",\"fn\":\"start\",\"rd\":[[%d,%d,%d,%d],[%d,%d,%d,%d],[%d,%d,%d,%d]],\"sh\":[%d,%d,%d,%d],\"input\":%d,\"fork\":%d,\"argvnull\":%d,"
+               "\"expect\":\"%s\",\"r\":%d,\"created\":%d,\"faulthit\":%d}\n", idx, tv[0], hv[0], fv[0], pv[0], tv[1], hv[1], fv[1], pv[1], tv[2], hv[2], fv[2], pv[2],
+               pa_, di_, fi_, pt_, inputv, forkv, argvmode, expect_einval ? (must_be_upfront ? "EINVAL-upfront" : "EINVAL") : "accepted", r, created, K->fault_hits);
+    }
+  }
+  printf("{\"i\":0,\"ok\":1,\"records\":%ld,\"judged\":%ld,\"mismatches\":%ld}\n", n, judged, mism);
+  return 0;
+}
+
 #define BATCH 64
 static char *batch[BATCH];
 
@@ -1140,6 +1216,10 @@ static void run_line(char *line, int idx)
 
 int main(int argc, char **argv)
 {
+  if (argc >= 7 && !strcmp(argv[1], "--optsweep")) {
+    progress = mmap(NULL, 4096, PROT_READ | PROT_WRITE, MAP_SHARED | MAP_ANONYMOUS, -1, 0);
+    return optsweep(argv[2], atoi(argv[3]), atoi(argv[4]), atoi(argv[5]), atoi(argv[6]));
+  }
   for (int i = 1; i < argc; i++) {
     if (!strcmp(argv[i], "--trace")) opt_trace = 1;
     else if (!strcmp(argv[i], "--nofork")) opt_nofork = 1;
